@@ -332,25 +332,28 @@ def check_r2(rep, fx, W, V, Wv):
                 'compile entry halts a program whose last step failed at run time (guards: %s)' % (guards or ['unconditional']) if okg else
                 'the halt write in %s is guarded by %s, not by the failed-run flag' % (short(fn), guards), fn, w['at'])
     # the flag is set on every failing step: run and next error paths call set_runtime_err_location, which stores runtime: true
-    sre = fx.need('state::State::set_runtime_err_location')
+    fx.need('state::State::set_runtime_err_location')
+    sre = V('state::State::set_runtime_err_location')
     flag_true = False
     for bb in sre.reachable_blocks():
         for st in sre.blocks[bb]['stmts']:
             if st['k'] == 'assign' and st['rv']['k'] == 'agg' and st['rv'].get('adt') == 'state::ErrorContext':
                 names = st['rv'].get('fnames', [])
                 if 'runtime' in names:
-                    c = st['rv']['fields'][names.index('runtime')].get('c')
-                    flag_true = bool(c and c.get('v') == 1)
+                    e = sre.expr_of_operand(st['rv']['fields'][names.index('runtime')])
+                    while isinstance(e, tuple) and e[0] in ('ref', 'cast'):
+                        e = e[2]
+                    flag_true = isinstance(e, tuple) and e[0] == 'const' and e[1].get('v') == 1
     rep.add('C10.R2', 'C10.R2:set_runtime_err_location:marks-runtime', flag_true,
             'a failing step records runtime: true' if flag_true else 'set_runtime_err_location does not mark the error as a run-time error',
             sre.name, sre.j['span'])
+    from .. import stepfx
     for fn in ('state::State::run', 'state::State::next'):
-        f = fx.need(fn)
-        # closure passed to map_err calls set_runtime_err_location
-        ok = 'state::State::set_runtime_err_location' in fx.reachable_from([fn], stop={'state::State::fetch_and_run'})
-        maps = [bb for bb, t in f.calls() if callee_of(t) == 'core::result::Result::<T, E>::map_err']
-        rep.add('C10.R2', 'C10.R2:%s:error-exit-marks' % fn, ok and bool(maps),
-                'every Err of fetch_and_run passes the location/flag recorder (map_err closure)' if ok and maps else
+        fx.need(fn)
+        f = V(fn)
+        recorded, prop, how = stepfx.step_error_recorded(fx, f)
+        rep.add('C10.R2', 'C10.R2:%s:error-exit-marks' % fn, recorded,
+                'every Err of fetch_and_run passes the location/flag recorder (%s)' % how if recorded else
                 '%s does not record a failing step' % short(fn), fn, f.j['span'])
 
 
